@@ -837,7 +837,7 @@ impl Gen {
         if funded.is_empty() {
             return self.gen_provide(c, false, false);
         }
-        let hops = self.rng.range(1, 4);
+        let hops = if self.rng.chance(1, 6) { self.rng.range(5, 7) } else { self.rng.range(1, 4) };
         let first = *self.rng.pick(&funded);
         let mut cur = self.rng.pick(&first.pool_info.asset_denoms).clone();
         let start = cur.clone();
@@ -1022,7 +1022,9 @@ impl Gen {
             _ => Some(cur + self.rng.range(1, buffer.max(1))),
         };
         let s = start_epoch.unwrap_or(cur + 1);
+        let long_farm = self.rng.chance(1, 8);
         let preliminary_end_epoch = match self.rng.below(10) {
+            _ if long_farm => Some(s + self.rng.range(50, 3000)),
             0 | 1 => None,
             2 => Some(s),
             3 => Some(s + 1),
@@ -1031,6 +1033,12 @@ impl Gen {
         };
         let mut sender = self.any_sender(c);
         let mut lp = lp;
+        // worlds whose limit exceeds one page of the farm queries: pile farms onto one LP token
+        if fmc.max_concurrent_farms > 10 && self.rng.chance(3, 4) {
+            if let Some(first) = lps.first() {
+                lp = first.clone();
+            }
+        }
         // farms where LP is actually locked, so that rewards flow and penalties are shared
         if self.rng.chance(1, 2) {
             let locked: Vec<String> = c.obs.positions.iter().map(|p| p.lp_asset.denom.clone()).collect();
@@ -1053,6 +1061,8 @@ impl Gen {
         };
         let b = bal(&c.obs.bal, &sender, &denom);
         let amount = match self.rng.below(10) {
+            // a reward that is not a multiple of a long duration: remainder above the emission rate
+            _ if long_farm => self.rng.range(1000, 9000) as u128,
             0 => 999,
             1 => 1000,
             2 => self.rng.range(1000, 5000) as u128,
@@ -1747,7 +1757,8 @@ impl Gen {
             .filter(|(k, _)| !self.disabled.contains(k))
             .map(|(k, v)| (*k, *v))
             .collect();
-        let weights: Vec<u32> = kinds.iter().map(|(_, w)| *w).collect();
+        let heavy = c.w.cfg.farm.max_concurrent_farms > 10;
+        let weights: Vec<u32> = kinds.iter().map(|(k, w)| if heavy && *k == "farm_create" { *w * 4 } else { *w }).collect();
         if kinds.is_empty() {
             return Op::Noop;
         }
